@@ -11,6 +11,7 @@ CONSTANTS
   LsnClasses = {"0", "1", "4294967297"}
   KeyClasses = {"small", "wide"}
   StaleOpts = {FALSE, TRUE}
+  UpdFrom = {}
   SmallN = 2
   MaxOps = 3
   MaxUpd = 1
